@@ -212,6 +212,41 @@ def switch_edges(b, pred, blocks=None):
     return out
 
 
+def outcome_edges(b, blocks=None, pred=None):
+    """[(switch bb, target bb, variant name, source expr)] for every branch on the *outcome* of an Option / Result,
+    however it is spelled: a match / if-let / `?` on the value (discriminant switch) or a test with is_ok() / is_err() /
+    is_some() / is_none() (bool switch).  `pred(source expr)` filters by the tested value."""
+    tests = {"std::option::Option::is_none": ("None", "Some"), "std::option::Option::is_some": ("Some", "None"),
+             "std::result::Result::is_ok": ("Ok", "Err"), "std::result::Result::is_err": ("Err", "Ok")}
+    out = []
+    for bb in (blocks if blocks is not None else b.reachable):
+        t = b.term(bb)
+        if t["t"] != "switch":
+            continue
+        e = switch_expr(b, bb)
+        neg = False
+        while isinstance(e, tuple) and e and e[0] == "un" and e[1] == "Not":
+            e, neg = e[2], not neg
+        if isinstance(e, tuple) and e and e[0] == "discr":
+            if pred is not None and not pred(e[1]):
+                continue
+            for v, tb in list(t["targets"]) + [(None, t["otherwise"])]:
+                m = switch_meaning(b, bb, v)
+                for name in (m if isinstance(m, tuple) else (m,)):
+                    out.append((bb, tb, name, e[1]))
+        elif isinstance(e, tuple) and e and e[0] == "call" and e[1] in tests and e[2]:
+            src, ren = peel_outcome(e[2][0])
+            if pred is not None and not pred(src):
+                continue
+            yes, no = tests[e[1]]
+            for v, tb in list(t["targets"]) + [(None, t["otherwise"])]:
+                m = switch_meaning(b, bb, v)
+                if isinstance(m, bool):
+                    name = yes if (m != neg) else no
+                    out.append((bb, tb, ren.get(name, name), src))
+    return out
+
+
 def arith(e):
     """Normalise an addition / subtraction written as an operator or as a saturating_/checked_/wrapping_
     method call: returns (op, lhs, rhs) with op in {'Add', 'Sub', 'Mul'} or None.  `checked_*` results are
